@@ -169,7 +169,7 @@ class Module:
         if records:
             for q, fi in list(self.functions.items()):
                 if fi.parent_func is None:
-                    self.scalarised_records += scalarise_records(fi.node, records)
+                    self.scalarised_records += scalarise_records(fi.node, records, {c: ci.node for c, ci in self.classes.items()})
         # a private new helper that is no longer called anywhere in the module has been read in place at every call site:
         # analysing it again on its own would only report the same constructs under a second name
         self.absorbed_helpers: list[str] = []
